@@ -1,7 +1,7 @@
 META = dict(
     engine='seqx+cosched',
     technique='explicit-state model checking: BFS to closure over all arrangements of 5-7 distinguishable items (tied priorities) of the real parsec_list_t/dequeue/fifo/sorted-ring code against an array model with stable sorted insertion; plus preemption-bounded exhaustive schedule enumeration (CHESS) of the locked variants with brute-force linearizability',
-    level_text='Sequential: every reachable list arrangement of N items (N=5,6 quick; 5,6,7 thorough) x every operation of the alphabet (push/pop/try_pop front/back, push_sorted, chain_sorted, chain_front/back with rings <= 3, unchain, sort, remove, add_before/after, ring_push_sorted/chop; nolock, locked, dequeue and fifo entry points) is executed on the real inline code and compared with the model after a both-ways walk. Concurrent: every schedule with <= b preemptions (b=2 quick, 3 thorough; the three longest scripts b-1) of twelve 2-3 thread scripts over the locked list/dequeue/fifo operations is executed and checked for linearizability, conservation of items and link consistency.',
+    level_text='Sequential: every reachable list arrangement of N items (N=5,6 quick; 5,6,7 thorough) x every operation of the alphabet (push/pop/try_pop front/back, push_sorted, chain_sorted, chain_front/back with rings <= 3, unchain, sort, remove, add_before/after, ring_push_sorted/chop; nolock, locked, dequeue and fifo entry points) is executed on the real inline code and compared with the model after a both-ways walk. Concurrent: every schedule with <= b preemptions (b=1 quick, 3 thorough with the longest scripts at 2) of twelve 2-3 thread scripts over the locked list/dequeue/fifo operations is executed and checked for linearizability, conservation of items and link consistency.',
     level_note='Sorted operations are only applied to sorted lists (documented precondition). Sort oracle: permutation ordered by priority, either direction. Sequential consistency at instrumented accesses; <= 3 threads, <= 2 operations per thread; try_pop may return NULL when it overlaps another operation (documented).',
 )
 RULE = ("seqx legs: BFS over operation histories on the real list, states = distinct list arrangements (canonical = sequence of item ids), every transition compared with the array model "
@@ -12,10 +12,18 @@ def build_seq(ctx, ni):
     return ctx.compile('hk-shm', 'listseq%d' % ni, ['list_seq.c'], instr=False, cflags=['-DNI=%d' % ni])
 def build_conc(ctx):
     return ctx.compile('hk-shm', 'listconc', ['list_conc.c'], engine='cosched')
+def finding_listed():
+    import os, json
+    p = os.environ.get('VERIF_KNOWN_FINDINGS') or '/verif/known_findings.json'
+    try:
+        return any(f.get('id') == KNOWN_ID for f in json.load(open(p)).get('findings', []))
+    except Exception:
+        return False
 def conc_env():
-    import os, vlib
+    import os
     env = dict(os.environ)
-    if any(f.get('id') == KNOWN_ID for f in vlib.known_findings()):
+    env.pop('C31_KNOWN_SORT_EMPTY', None)
+    if finding_listed():
         env['C31_KNOWN_SORT_EMPTY'] = '1'
     return env
 def check(ctx):
@@ -24,11 +32,19 @@ def check(ctx):
     for ni in ([5, 6] if quick else [5, 6, 7]):
         ctx.run_engine(build_seq(ctx, ni), ['--outdir', '/verif/out', '--deadline', '300'] + ([] if quick else ['--thorough']), label='listseq%d' % ni, timeout=900)
     exe = build_conc(ctx)
-    env = conc_env()
-    bound = 2 if quick else 3
-    env['C31_CAP_HEAVY'] = str(bound - 1)
-    os.environ.update({k: env[k] for k in ('C31_CAP_HEAVY', 'C31_KNOWN_SORT_EMPTY') if k in env})
-    ctx.run_cosched(exe, bound, deadline=(150 if quick else 1000), label='listconc')
+    bound = 1 if quick else 3       # the machine is shared by many checks: ~100-400 executions/s; bound 1 = 3.0k schedules, bound 2 = 93k, bound 3 (heavy scripts 2) = deadline-cut
+    # run_cosched passes os.environ to the harness: leg selection and the known-finding switch travel by environment
+    os.environ.pop('C31_KNOWN_SORT_EMPTY', None)
+    os.environ['C31_CAP_HEAVY'] = str(max(1, bound - 1))
+    os.environ['C31_LEG'] = 'main'
+    ctx.run_cosched(exe, bound, deadline=(100 if quick else 800), label='listconc')
+    # sort || pop leg: histories that match the known finding are attributed to it only if known_findings.json lists it
+    os.environ['C31_LEG'] = 'sort'
+    if finding_listed():
+        os.environ['C31_KNOWN_SORT_EMPTY'] = '1'
+    ctx.run_cosched(exe, bound, deadline=(60 if quick else 300), label='listconc-sort')
+    for k in ('C31_LEG', 'C31_CAP_HEAVY', 'C31_KNOWN_SORT_EMPTY'):
+        os.environ.pop(k, None)
     return ctx.finish(RULE, ["sequential consistency at instrumented accesses (no weak-memory effects)",
                              "sorted insertion is only applied to lists that are sorted (documented precondition)",
                              "gcc -fsanitize=thread instrumentation reports every access to the watched objects"])
@@ -37,4 +53,5 @@ def replay(ctx, path, obj):
     if obj.get('engine') == 'seqx':
         ni = int(re.search(r'_n(\d+)$', obj['scenario']).group(1))
         return subprocess.call([build_seq(ctx, ni), '--replay', path])
-    return subprocess.call([build_conc(ctx), '--replay', path], env=conc_env())
+    env = conc_env(); env.pop('C31_LEG', None)
+    return subprocess.call([build_conc(ctx), '--replay', path], env=env)
